@@ -13,7 +13,7 @@ import tempfile
 import importlib
 import io
 import contextlib
-from concurrent.futures import ThreadPoolExecutor
+from concurrent.futures import ThreadPoolExecutor, ProcessPoolExecutor
 
 import core
 import facts as factsmod
@@ -126,6 +126,31 @@ def load_corpus(kind, prop):
         return json.load(fh)
 
 
+def _edit_job(job):
+    prop, edits = job
+    st, bad = run_one_edit(prop, edits)
+    return st, [{k: v for k, v in b.items() if isinstance(v, (str, int, float, bool, type(None)))} for b in bad]
+
+
+def _patch_job(job):
+    """apply a kept seeded change (a unified diff) to a scratch copy and run prop's rules on it"""
+    prop, patch = job
+    sd, dst = make_scratch(core.REPO)
+    try:
+        r = subprocess.run(['patch', '-p1', '-s', '-i', patch], cwd=dst, stdout=subprocess.PIPE, stderr=subprocess.PIPE)
+        if r.returncode != 0:
+            return 'not-applicable', []
+        st, bad, _ = run_rules_on(prop, dst)
+        return st, sorted(set('%s:%s' % (b['rule'], b['key']) for b in bad))[:6]
+    finally:
+        shutil.rmtree(sd, ignore_errors=True)
+
+
+def run_patches(prop, patches, workers=4):
+    with ProcessPoolExecutor(max_workers=workers) as ex:
+        return list(ex.map(_patch_job, [(prop, p) for p in patches]))
+
+
 def sweep(ck_prop, workers=4):
     """Runs mutants/<prop>.json (must fire, naming expect_rule) and quiet/<prop>.json + quiet/ALL.json (must stay silent).
     Returns dict with results and a list of failures."""
@@ -134,23 +159,19 @@ def sweep(ck_prop, workers=4):
     results = {'mutants': [], 'quiet': []}
     failures = []
 
-    def do_mut(m):
-        st, bad = run_one_edit(ck_prop, m['edits'])
-        named = any(b['rule'] == m.get('expect_rule') or not m.get('expect_rule') for b in bad)
-        return m, st, bad, named
-
-    def do_quiet(q):
-        st, bad = run_one_edit(ck_prop, q['edits'])
-        return q, st, bad
-
-    with ThreadPoolExecutor(max_workers=workers) as ex:
-        for m, st, bad, named in ex.map(do_mut, muts):
+    # one process per edit: the rules are pure Python and would serialise on the interpreter lock in threads
+    with ProcessPoolExecutor(max_workers=workers) as ex:
+        mres = list(ex.map(_edit_job, [(ck_prop, m['edits']) for m in muts]))
+        qres = list(ex.map(_edit_job, [(ck_prop, q['edits']) for q in quiet]))
+    if True:
+        for m, (st, bad) in zip(muts, mres):
+            named = any(b['rule'] == m.get('expect_rule') or not m.get('expect_rule') for b in bad)
             rec = {'id': m['id'], 'status': st, 'expect_rule': m.get('expect_rule'),
                    'fired': sorted(set('%s:%s' % (b['rule'], b['key']) for b in bad))[:6]}
             results['mutants'].append(rec)
             if st == 'silent' or (st == 'fires' and not named):
                 failures.append('mutant %s: expected rule %s to fire, got %s %s' % (m['id'], m.get('expect_rule'), st, rec['fired']))
-        for q, st, bad in ex.map(do_quiet, quiet):
+        for q, (st, bad) in zip(quiet, qres):
             rec = {'id': q['id'], 'status': st, 'fired': sorted(set('%s:%s' % (b['rule'], b['key']) for b in bad))[:6]}
             results['quiet'].append(rec)
             if st == 'fires' and ck_prop in (q.get('review_needed_by') or {}):
